@@ -330,5 +330,9 @@ func timeOfView(v string, adj bool) (time.Time, error) {
 // e.g. the view "string_201901" would return "201901".
 func viewTimePart(v string) string {
 	parts := strings.Split(v, "_")
+	if len(parts) < 2 {
+		// No time portion at all, e.g. the plain "standard" view.
+		return ""
+	}
 	return parts[len(parts)-1]
 }
